@@ -425,3 +425,22 @@ Theorem C18_held_reused_pair_boundary :
     [mkM [1] 1 KVal [10]; mkM [1] 1 KVal [10]; mkM [1] 1 KVal [10]; mkM [1] 1 KVal [10]].
 Proof. exact MemtableHeld.held_reused_pair_boundary. Qed.
 Print Assumptions C18_held_reused_pair_boundary.
+
+(* ---------- Part E: the memtable pool (MemPool.v, MemPoolProofs.v) ---------- *)
+From KV Require Spec EngineProofs MemPool MemPoolProofs.
+(* whatever the placement of SwitchToNewMemTable among the writes, a pool lookup returns the effect
+   of the last write of the key (sequence numbers of the writer do not decrease) *)
+Theorem C18_pool_get_last_write : forall ops k,
+  Sorted.StronglySorted EngineProofs.seq_le (MemPoolProofs.writes ops) ->
+  MemPool.pl_get (MemPoolProofs.prun ops) k =
+  Spec.last_effect k (map EngineProofs.eff (MemPoolProofs.writes ops)).
+Proof. exact MemPoolProofs.pool_get_last_write. Qed.
+Print Assumptions C18_pool_get_last_write.
+
+Theorem C18_pool_tables_shape : forall ops,
+  length (MemPool.pl_tables (MemPoolProofs.prun ops)) =
+    S (length (filter (fun o => match o with MemPoolProofs.PSwitch => true | _ => false end) ops)) /\
+  mt_imm (MemPool.pl_active (MemPoolProofs.prun ops)) = false /\
+  Forall (fun t => mt_imm t = true) (MemPool.pl_imms (MemPoolProofs.prun ops)).
+Proof. exact MemPoolProofs.pool_tables_shape. Qed.
+Print Assumptions C18_pool_tables_shape.
